@@ -103,11 +103,12 @@ fn cmd_check(args: &[String]) -> i32 {
             break;
         }
         let b = if tier == Tier::Quick { &p.quick } else { &p.thorough };
-        if b.random_cases_per_cfg == 0 {
+        if b.random_cases == 0 {
             continue;
         }
         let cfgs = w.configs(tier);
-        let params = RandomParams { cases_per_cfg: ((b.random_cases_per_cfg as f64) * scale) as u64, max_len: b.max_len, seed };
+        let per_cfg = (((b.random_cases as f64) * scale) as u64 / cfgs.len().max(1) as u64).max(16);
+        let params = RandomParams { cases_per_cfg: per_cfg, max_len: b.max_len, seed };
         failure = run_random(*w, prop, &cfgs, &params, &mut stats, true);
     }
 
